@@ -739,7 +739,10 @@ class DriftJob:
                                                    "-config", "%s_%s.cfg" % (spec, self.tier), spec + ".tla"]
         env = dict(os.environ)
         env.pop("JAVA_TOOL_OPTIONS", None)
-        p = subprocess.run(cmd, cwd=vlib.SPEC, env=env, stdout=subprocess.PIPE, stderr=subprocess.STDOUT, text=True, timeout=3600)
+        try:
+            p = subprocess.run(cmd, cwd=vlib.SPEC, env=env, stdout=subprocess.PIPE, stderr=subprocess.STDOUT, text=True, timeout=q(self.tier, 3600, 18000))
+        except subprocess.TimeoutExpired:
+            raise vlib.ToolError("TLC (model snapshots for the drift comparison) timed out")
         model = {}
         for line in p.stdout.splitlines():
             m = re.search(r'<<"SNAP", "(.*)">>\s*$', line)
@@ -828,7 +831,10 @@ class MachineDriftJob:
         cmd = vlib.java_cmd("6g", serial=False) + ["-workers", "1", "-metadir", os.path.join(wd, "mdsnapm" + self.fmt), "-cleanup", "-noGenerateSpecTE", "-config", snapcfg, spec + ".tla"]
         env = dict(os.environ)
         env.pop("JAVA_TOOL_OPTIONS", None)
-        p = subprocess.run(cmd, cwd=vlib.SPEC, env=env, stdout=subprocess.PIPE, stderr=subprocess.STDOUT, text=True, timeout=3600)
+        try:
+            p = subprocess.run(cmd, cwd=vlib.SPEC, env=env, stdout=subprocess.PIPE, stderr=subprocess.STDOUT, text=True, timeout=q(self.tier, 3600, 18000))
+        except subprocess.TimeoutExpired:
+            raise vlib.ToolError("TLC (model snapshots for the drift comparison) timed out")
         model = {}
         for line in p.stdout.splitlines():
             m = re.search(r'<<"SNAP", "(.*)">>\s*$', line)
